@@ -27,6 +27,14 @@ func TestSimDump(t *testing.T) {
 	}
 	tr := sim.Run(t, &rf.Scenario)
 	fmt.Println(sim.Dump(&rf.Scenario, tr))
+	if os.Getenv("VERIF_DUMP_NFLOG") != "" {
+		for _, smp := range tr.Samples {
+			fmt.Printf("sample step %d at %s:\n", smp.Step, smp.At.Format("15:04:05.000"))
+			for _, e := range smp.Nflog {
+				fmt.Printf("    %+v\n", e)
+			}
+		}
+	}
 	vs, st := sim.Judge(&rf.Scenario, tr)
 	fmt.Printf("stats %+v\n", st)
 	for _, v := range vs {
